@@ -94,7 +94,7 @@ def generate(ctx, pid, tier, seed, i, skip):
 
 
 # ---------------------------------------------------------------------------------------------------------------
-def shrink(ctx, pid, case, sig, budget_runs=36, budget_s=150):
+def shrink(ctx, pid, case, sig, budget_runs=30, budget_s=120):
     t0 = time.time()
     runs = [0]
 
@@ -203,14 +203,15 @@ def stage_replays(ctx, chk, pid, out, known, ev):
     return n
 
 
-def stage_msgfuzz(ctx, pid, out, ev, seed, iters):
+def stage_msgfuzz(ctx, pid, out, ev, seed, iters, skip, known):
     """proxy-msg.c read/write handlers in-process over a socketpair (C19 only)"""
     import subprocess
     t0 = time.time()
     per = max(1, iters // 8)
     procs = []
     for w in range(8):
-        procs.append(subprocess.Popen([ctx.B['client'], 'msgfuzz', str((seed * 1000003 + w * 7919) & 0x7fffffff), str(per)],
+        flags = (1 if skip.get('hdr_len_small') else 0) | (2 if skip.get('hdr_len_big') else 0)
+        procs.append(subprocess.Popen([ctx.B['client'], 'msgfuzz', str((seed * 1000003 + w * 7919) & 0x7fffffff), str(per), str(flags)],
                                       stdout=subprocess.PIPE, stderr=subprocess.PIPE, text=True, errors='replace',
                                       env=pcase.san_env({'ASAN_OPTIONS': 'detect_leaks=1:exitcode=99:handle_abort=1:symbolize=1'})))
     done = 0
@@ -227,9 +228,9 @@ def stage_msgfuzz(ctx, pid, out, ev, seed, iters):
             d = os.path.join(pbuild.BUILD, 'violations', pid)
             os.makedirs(d, exist_ok=True)
             fp = os.path.join(d, sanitize(sig) + '.json')
-            json.dump({'prop': pid, 'msgfuzz': {'seed': (seed * 1000003 + w * 7919) & 0x7fffffff, 'iters': per}, 'signature': sig, 'clients': []}, open(fp, 'w'))
-            if not any(v[0] == sig for v in out.violations):
-                out.violations.append((sig, fp, (so + '\n' + se)[-3000:]))
+            json.dump({'prop': pid, 'msgfuzz': {'seed': (seed * 1000003 + w * 7919) & 0x7fffffff, 'iters': per, 'flags': flags}, 'signature': sig, 'clients': []},
+                      open(fp, 'w'))
+            register(None, pid, out, known, sig, fp, (so + '\n' + se)[-3000:])
         else:
             m = re.search(r'iters=(\d+) complete=(\d+) rejected=(\d+)', so)
             if m:
@@ -250,7 +251,7 @@ def run(chk, pid, tier, seed, out, ev, known):
                'x_skip_flags': {k: v for k, v in skip.items()}, 'x_repo': pbuild.repo(), 'x_tsan_cases': 0})
     n_replays = stage_replays(ctx, chk, pid, out, known, ev)
     if pid == 'C19' and conf.get('msgfuzz'):
-        stage_msgfuzz(ctx, pid, out, ev, seed, conf['msgfuzz'])
+        stage_msgfuzz(ctx, pid, out, ev, seed, conf['msgfuzz'], skip, known)
 
     viol_dir = os.path.join(pbuild.BUILD, 'violations', pid)
     inc_dir = os.path.join(pbuild.BUILD, 'violations', pid, 'inconclusive')
@@ -317,7 +318,14 @@ def run(chk, pid, tier, seed, out, ev, known):
                     cands[s] = (case, d)
     ev['distinct_nontrivial'] = len(nt_hashes)
 
-    for sig, (case, detail) in cands.items():
+    def is_known(sig):
+        return any(k.get('property') == pid and k.get('signature') == sig for k in known.get('known', []))
+
+    def work(item):
+        sig, (case, detail) = item
+        if is_known(sig):
+            # a recorded finding met again by chance: no shrinking, no confirmation needed
+            return sig, case, detail, case, 3, detail
         log('[%s] candidate %s: shrinking' % (pid, sig))
         small, nruns = shrink(ctx, pid, case, sig)
         ok, d2 = confirm(ctx, pid, small, sig)
@@ -325,6 +333,11 @@ def run(chk, pid, tier, seed, out, ev, known):
             ok0, d0 = confirm(ctx, pid, case, sig)
             if ok0 >= 3:
                 small, ok, d2 = case, ok0, d0
+        return sig, case, detail, small, ok, d2
+
+    with ThreadPoolExecutor(max(1, min(6, len(cands)))) as ex:
+        results = list(ex.map(work, list(cands.items())))
+    for sig, case, detail, small, ok, d2 in results:
         path = save_case(viol_dir if ok >= 3 else inc_dir, sig, small, {'why': detail[:2000]})
         if ok < 3:
             ev['x_inconclusive'] += 1
@@ -345,7 +358,8 @@ def replay(chk, pid, path):
     case = json.load(open(path))
     if case.get('msgfuzz'):
         import subprocess
-        r = subprocess.run([ctx.B['client'], 'msgfuzz', str(case['msgfuzz']['seed']), str(case['msgfuzz']['iters'])], env=pcase.san_env())
+        r = subprocess.run([ctx.B['client'], 'msgfuzz', str(case['msgfuzz']['seed']), str(case['msgfuzz']['iters']),
+                            str(case['msgfuzz'].get('flags', 0))], env=pcase.san_env())
         if r.returncode:
             print('VIOLATION property=%s replay=%s' % (pid, path))
             return 1
@@ -366,5 +380,6 @@ def replay(chk, pid, path):
         print('VIOLATION property=%s replay=%s' % (pid, path))
         return 1
     print('RESULT ok')
-    shutil.rmtree(res['dir'], ignore_errors=True)
+    if not os.environ.get('VERIF_PROXY_DEBUG'):
+        shutil.rmtree(res['dir'], ignore_errors=True)
     return 0
